@@ -256,12 +256,12 @@ func TestVerifC09History(t *testing.T) {
 	rep := kit.NewReport("C09", "history")
 	defer rep.Write()
 	defer c09InstallTTL()()
-	rep.SetRule("seeded HISTORIES instead of append-only layouts: 3-9 steps drawn from {1-6 append batches (one batch per segment with MaxSegmentBytes=1, or natural rolling with MaxSegmentBytes in {120,300,700}; harness timestamps, in 1 of 3 cases from leaders with skewed clocks), Truncate above the HW (inside the newest non-empty segment, that whole segment, at the base of / inside an earlier segment, random) always followed by further appends, clean close + reopen, crash recovery = close + damage the index file of one or several segments (last entries cut off / zeroed in place, file empty, file missing, stale extra entries beyond the log end) + reopen}, at least one truncation or recovery per case; then 1-3 rounds of {limits aimed at the layout measured from the files (suffix sums -1/0/+1, cutoffs between segments) installed in the live log without reopening, Clean, second Clean, more history steps}; oracle = the shared before/after oracle from a raw parse of the files (prefix of whole segments, newest kept, necessity, sufficiency, survivors untouched, segment accounting MessageCount/Position/lastWriteTime vs the file, OldestOffset/NewestOffset, forward/reverse reads); non-trivial = a clean that followed a truncation or a recovery removed >=1 segment; distinct = history + limits")
+	rep.SetRule("seeded HISTORIES instead of append-only layouts: 3-9 steps drawn from {1-6 append batches (one batch per segment with MaxSegmentBytes=1, or natural rolling with MaxSegmentBytes in {120,300,700}; harness timestamps, in 1 of 3 cases from leaders with skewed clocks), Truncate above the HW (inside the newest non-empty segment, that whole segment, at the base of / inside an earlier segment, random) followed in 4 of 5 cases by further appends, clean close + reopen, crash recovery = close + damage the index file of one or several segments (last entries cut off / zeroed in place, file empty, file missing, stale extra entries beyond the log end) + reopen}, at least one truncation or recovery per case; then 1-3 rounds of {limits aimed at the layout measured from the files (suffix sums -1/0/+1, cutoffs between segments) installed in the live log without reopening, Clean, second Clean, more history steps}; oracle = the shared before/after oracle from a raw parse of the files (prefix of whole segments, newest kept, necessity, sufficiency, survivors untouched, segment accounting MessageCount/Position/lastWriteTime vs the file, OldestOffset/NewestOffset, forward/reverse reads); non-trivial = a clean that followed a truncation or a recovery removed >=1 segment; distinct = history + limits")
 	rep.Assume("computeTTL is pinned to a fixed instant and all message timestamps are chosen by the harness: no wall clock takes part")
 	rep.Assume("truncations stay above the high watermark and never empty the whole log; index damage is limited to the shapes segment.setupIndex documents as recoverable (index does not end where the log file ends, index file missing/empty); a hole in the middle of an index is not produced")
 	rep.Assume("the retention limits are written into the live log's deleteCleaner (the same three fields commitlog.New fills from Options) so that the segment objects produced by the history are the ones the cleaner measures; rounds that follow a reopen get them through Options as well")
 	root := kit.NewRNG(kit.Mix(kit.Seed(), 0xC09A15))
-	ncases := kit.Scale(900, 3600)
+	ncases := kit.Scale(360, 2400)
 	seeds := make([]uint64, ncases)
 	for i := range seeds {
 		seeds[i] = root.Uint64()
@@ -328,6 +328,11 @@ func c09RunHistory(rep *kit.Report, seed uint64, idx int) {
 			truncs++
 			sinceTrunc = true
 			rep.Count("truncate_"+kind, 1)
+			if rng.Chance(1, 5) {
+				// the rewritten / re-activated segment meets the cleaner as it is
+				rep.Count("truncate_without_following_append", 1)
+				return true
+			}
 			return appendSome(1, 4)
 		case x < 7: // crash recovery of index files
 			var desc []string
